@@ -4,6 +4,8 @@
   semantics and the compiler model).
 -/
 import Nlmodel.Model.Pipeline
+import Nlmodel.Proofs.Lemmas.ResolveHeap
+import Nlmodel.Proofs.Lemmas.ResolveFn
 namespace Nl
 namespace C09
 
@@ -81,6 +83,32 @@ theorem C09_function_sees_own_and_globals (cur mid g : Ctx) (rest : List Ctx) (n
   cases hg : g.resolve n with
   | none => rfl
   | some p => obtain ⟨a, b⟩ := p; rfl
+
+/-- SLOTS IMPLEMENT BINDERS (R1) for the whole function-free language: whatever tree the resolver produces
+    for a function-free source program, every variable occurrence in it carries a (binder, slot) pair that is
+    in scope at that point, each `stel` introduces a binder and a slot that no name in scope uses, a block's
+    names end with the block (`SimH.HB`: the scope discipline the simulation theorems of C01 consume), so the
+    slot-based machine code and the binder-based definitional semantics read and write the same variable at
+    every occurrence.  By induction over the resolver (`SimH.rHE` ..), no bound on nesting or program size. -/
+theorem C09_slots_implement_binders_function_free (ast : Block) (hs : SimH.SHB false ast) (p : RBlock)
+    (h : resolveProgram ast = .ok p) : ∃ Γ', SimH.HB [] false p Γ' :=
+  SimH.resolve_hb ast hs p h
+
+/-- SLOTS IMPLEMENT BINDERS (R1) for programs with functions: whatever the resolver produces for a source program
+    of the syntactic fragment `SimF.SrcTop` is a well-scoped program in the sense the function simulation
+    consumes (`SimF.YTop`): inside a body every variable occurrence is a local of THAT body (parameter or
+    declaration, in the frame slot the symbol table gave it, below the function's locals count) or a global
+    declared earlier at top level — never a local of a caller or of another function; parameters occupy slots
+    0..n-1; block scopes inside bodies reuse slots only after the block ended; the function ids are distinct. -/
+theorem C09_slots_implement_binders_functions (ast : Block) (hs : SimF.SrcTop ast) (r : RBlock)
+    (h : resolveProgram ast = .ok r) :
+    ∃ Γ' D, SimF.YTop [] r 0 [] Γ' D ∧ D.Pairwise (fun x y => x.1 ≠ y.1) :=
+  SimF.resolve_ytop ast hs r h
+
+/-- the same for the control-flow fragment over scalars (stage 3) -/
+theorem C09_slots_implement_binders_control_flow (ast : Block) (hs : Sim.SB false ast) (p : RBlock)
+    (h : resolveProgram ast = .ok p) : ∃ Γ', Sim.XB [] false p Γ' :=
+  Sim.resolve_xb ast hs p h
 
 /-- a program that uses an undeclared name anywhere is rejected before it produces any output:
     both the machine model and the definitional semantics return the resolver's error with the
